@@ -21,12 +21,16 @@ ASSUMPTIONS = ["at most once counts successful constructions: the runtime delibe
 def conc_cfg(rng):
     cfg = c05.history_cfg(rng)
     cfg["parameters"] = {"fp": "%myfn(1)%", "lit": "x", "cat": "a%fp%b"}
+    for k in range(8):
+        cfg["parameters"]["m%d" % k] = "<m%d|%%lit%%|%d-%%lit%%>" % (k, k)
     cfg["meta"]["functions"] = {"myfn": "fx.Fn1"}
     names = list(cfg["services"])
     cfg["services"][names[-1]]["arguments"].append("%cat%")
     cfg["services"][names[0]]["tags"] = ["t"]
     cfg["services"][names[0]]["getter"] = "GetFirst"
     cfg["services"][names[0]]["type"] = "*fx.Obj"
+    # repeated concurrent constructions with concatenated arguments
+    cfg["services"]["ns"] = {"constructor": "fx.NewC", "arguments": ["ns", "x%lit%y%lit%z", "%m0%-%m1%"], "scope": "non_shared"}
     return cfg
 
 
@@ -40,7 +44,8 @@ def run(ctx, n=None, par=None):
         ops = [["counters"], ["newctx", "c1"], ["newctx", "c2"]]
         for nm in names:
             ops.append(["par", par, ["get", nm]])
-        ops += [["par", par, ["param", "fp"]], ["par", par, ["param", "cat"]], ["par", par, ["tagged", "t"]], ["par", par, ["call", "GetFirst"]],
+        ops += [["parmix", max(2, par // 8), [["param", "m%d" % k] for k in range(8)] + [["get", "ns"]]],
+                ["par", par, ["param", "fp"]], ["par", par, ["param", "cat"]], ["par", par, ["tagged", "t"]], ["par", par, ["call", "GetFirst"]],
                 ["par", par, ["getctx", "c1", names[-1]]], ["par", par, ["getctx", "c2", names[-1]]], ["counters"]]
         items.append((cfg, ops))
     out, err = behave.run_batch(ctx, items, race=True, tag="c20")
@@ -66,6 +71,25 @@ def run(ctx, n=None, par=None):
         shared_serial = {}
         ctx_serials = {}
         for op, r in zip(ops, res):
+            if op[0] == "parmix":
+                dist["parallel_ops"] += 1
+                rs = r.get("par", [])
+                inner_ops = op[2]
+                dist["goroutines"] += len(rs)
+                for i, x in enumerate(rs):
+                    o = inner_ops[i % len(inner_ops)]
+                    if "panic" in x or "err" in x:
+                        violations.append({"sig": "concurrent-error", "what": "%r under concurrency: %r" % (o, x), "files": rec["files"]})
+                    elif o[0] == "param":
+                        k = int(o[1][1:])
+                        want = "<m%d|x|%d-x>" % (k, k)
+                        if x.get("ok", {}).get("v") != want:
+                            violations.append({"sig": "concurrent-wrong-value", "what": "GetParam(%s) under concurrency returned %r, expected %r" % (o[1], x.get("ok"), want), "files": rec["files"]})
+                    elif o == ["get", "ns"]:
+                        a = x.get("ok", {}).get("args", {}).get("v", [])
+                        if len(a) < 3 or a[1].get("v") != "xxyxz" or a[2].get("v") != "<m0|x|0-x>-<m1|x|1-x>":
+                            violations.append({"sig": "concurrent-wrong-value", "what": "Get(ns) under concurrency built with arguments %r" % (a,), "files": rec["files"]})
+                continue
             if op[0] != "par":
                 continue
             dist["parallel_ops"] += 1
